@@ -37,6 +37,9 @@ type VC struct {
 	Assumptions map[string]bool
 	lastNow     Term
 	acquired    map[string]int
+	fresh_      []*freshObj
+	leakAt      map[ssa.Instruction][]*freshObj
+	hinted      map[string]bool
 	guardOf     map[string]string // guarded field heap name -> mutex field heap name
 	guards      map[string][]string
 }
@@ -126,6 +129,7 @@ type Frame struct {
 	held     map[string]bool
 	heldOut  map[*ssa.BasicBlock]map[string]bool
 	heldIn   map[string]bool
+	ghosts   map[string]*Val
 	prefix   string
 }
 
@@ -145,7 +149,7 @@ type loopInfo struct {
 
 func NewVC(p *Prog, fn *ssa.Function, c *Contract) *VC {
 	vc := &VC{P: p, S: NewScript(), Fn: fn, C: c, structSorts: map[string]string{}, strLits: map[string]int{}, heapSorts: map[string]string{},
-		written: map[string]bool{}, Dropped: map[string]int{}, Trusted: map[string]bool{}, ghostDecl: map[string]bool{}, callCount: map[string]int{}, Assumptions: map[string]bool{}, acquired: map[string]int{}, guardOf: map[string]string{}}
+		written: map[string]bool{}, Dropped: map[string]int{}, Trusted: map[string]bool{}, ghostDecl: map[string]bool{}, callCount: map[string]int{}, Assumptions: map[string]bool{}, acquired: map[string]int{}, guardOf: map[string]string{}, leakAt: map[ssa.Instruction][]*freshObj{}, hinted: map[string]bool{}}
 	vc.root = vc.newHeap(hRoot, nil)
 	vc.regHeap("$alloc", "(Array Int Bool)")
 	vc.S.DeclareRaw("TimeZero", "(define-fun TimeZero () Int (- 62135596800000000000))")
@@ -716,10 +720,19 @@ func (fr *Frame) enterLoop(li *loopInfo, reach Term) {
 	if all {
 		fr.cur = fr.cur.Havoc(nil, fmt.Sprintf("L%d", li.ordinal))
 	} else if len(mod) > 0 {
+		frames := fr.loopFrames(li)
+		pre := fr.cur
 		fr.cur = fr.cur.Havoc(mod, fmt.Sprintf("L%d", li.ordinal))
+		for name, refs := range frames {
+			if mod[name] {
+				fr.assertLoopFrame(name, refs, pre, fr.cur)
+			}
+		}
 	}
 	for _, phi := range phis {
-		fr.set(phi, vc.fresh(fmt.Sprintf("%s.%s.%s", fr.prefix, phi.Name(), phi.Comment), phi.Type()))
+		pv := vc.fresh(fmt.Sprintf("%s.%s.%s", fr.prefix, phi.Name(), phi.Comment), phi.Type())
+		fr.set(phi, pv)
+		fr.loadedRefFact(pv, phi.Type()) // references held in variables are nil or allocated
 	}
 	// assume invariants
 	for _, inv := range invs {
